@@ -129,6 +129,32 @@ theorem pkScriptLocs_slice (v : Nat) (ins : List TxIn) (pre post : List TxOut) (
     (((tx .witness).enc t).drop (pkScriptLoc t pre o)).take o.2.length = o.2 :=
   pkScript_slice v ins pre post o wits lock
 
+/-- Go's `SerializeSize` formula: with witness data the full serialization is the stripped one plus the two
+marker/flag bytes plus the witness stacks — as encoded lengths and as the size functions -/
+theorem serializeSize_formula (t : Tx) (h : hasWitness t.2 = true) :
+    ((tx .witness).enc t).length = ((tx .base).enc t).length + 2 + (encList witness t.2.2.2.1).length ∧
+    (tx .witness).size t = (tx .base).size t + 2 + sizeList witness t.2.2.2.1 :=
+  ⟨witness_enc_length t h, witness_size_formula t h⟩
+
+/-- hence the two encodings of a transaction coincide exactly when it carries no witness data -/
+theorem encodings_coincide_iff (t : Tx) : (tx .witness).enc t = (tx .base).enc t ↔ hasWitness t.2 = false := by
+  constructor
+  · intro he
+    cases hw : hasWitness t.2 with
+    | false => rfl
+    | true =>
+      have := witness_enc_length t hw
+      rw [he] at this
+      omega
+  · intro hw
+    simp only [tx, charge, BV.Codec.guard, seq, seqDep, txBody, txBodyWitEnc, alt, hw]
+    rfl
+
+/-- the command field: a command without trailing NUL, zero-padded to 12 bytes, is read back unchanged by the
+trailing-zero trim of `readMessageHeader` -/
+theorem command_field_roundtrip (cmd : Bytes) (h : cmd.getLast? ≠ some 0) :
+    ((padCommand cmd).reverse.dropWhile (· == 0)).reverse = cmd := trimRight_pad cmd _ h
+
 /-! ### identifiers -/
 
 /-- `TxHash` does not look at witness data -/
@@ -338,6 +364,16 @@ theorem readV2_canonical {α : Type} (c : Codec α) (hc : Lawful c) (maxPayload 
 
 /-- the short-id table is a bijection between its ids and its commands -/
 theorem v2Table_bijective : ∀ p ∈ v2Table, v2IdOf p.2 = some p.1 ∧ v2CmdOf p.1 = some p.2 := by decide
+
+/-- a v2 plaintext is one message: the payload decoder sees at most `MaxProtocolMessageLength` bytes when the
+length check passes, so its requests stay below the fixed multiple -/
+theorem v2_alloc_bounded {α : Type} {c : Codec α} {A B : Nat} (h : AllocB c A B)
+    (hK : A + B * MaxProtocolMessageLength ≤ allocK * MaxMessagePayload) (pre b : Bytes)
+    (hlen : (b.drop pre.length).length ≤ MaxProtocolMessageLength) :
+    c.alloc (b.drop pre.length) ≤ allocK * MaxMessagePayload := by
+  have h1 := h.bound (b.drop pre.length)
+  have h2 : B * (b.drop pre.length).length ≤ B * MaxProtocolMessageLength := Nat.mul_le_mul_left _ hlen
+  omega
 
 /-! ### hostile bytes: no panic, bounded allocation
 
